@@ -142,6 +142,7 @@ class Grammar:
     note: str = ""
     tags: list = field(default_factory=list)   # mechanisms this grammar is meant to reach
     not_lalr: bool = False          # specification-side fact: LR(1) but not LALR(1)
+    min_n: int = 0                  # smallest useful token bound (shortest interesting sentences)
 
     def term_names(self):
         return [t.name for t in self.terms]
